@@ -631,7 +631,8 @@ def run_sequence(chk, spec):
 
 
 def run_overflow(chk, spec):
-	"""an int column that holds an integer beyond the float range cannot be promoted: the assignment may fail, and then nothing has changed"""
+	"""an int column that holds an integer beyond the float range: the promoting assignment either fails - then nothing has changed - or is carried
+	out with the contents list assignment gives (the huge int kept as it is, as inference keeps it in a float column)"""
 	vals = list(spec["values"])
 	v = Vector(list(vals), name="v")
 	if spec["in_table"]:
@@ -662,6 +663,24 @@ def run_overflow(chk, spec):
 		msg = M.truthful(after[0], target.schema())
 		if msg:
 			chk.fail("the column dtype covers what was assigned", f"assign/untruthful-after-assign/{spec['key'][0]}/overflow", f"{spec!r}: {msg}")
+			return
+		# carried out: then the contents are those list assignment gives (an int that no float can hold stays the int it is)
+		model = list(vals)
+		k, val = spec["key"], spec["value"]
+		if k[0] == "int":
+			model[k[1]] = val
+		elif k[0] == "slice":
+			model[slice(*k[1])] = val
+		elif k[0] == "idx-list":
+			for i, x in zip(k[1], val):
+				model[i] = x
+		else:
+			for i, m in enumerate(k[1]):
+				if m:
+					model[i] = val
+		got = after[0]
+		if len(got) != len(model) or any((a is None) != (b is None) or (a is not None and a != b) for a, b in zip(got, model)):
+			chk.fail("assignment leaves exactly the contents list assignment would produce", f"assign/contents/{spec['key'][0]}/overflow", f"{spec!r}: {short(got, 120)} vs list model {short(model, 120)}")
 
 
 def run_selfmask(chk, spec):
